@@ -38,37 +38,37 @@ Section Store.
 
   (** [completeProposal] hands the result to the waiter registered under the
       id, and only once: the waiter is gone afterwards. *)
-  Lemma complete_some id (p p' : pipe W) w :
-    complete id p = (p', Some w) ->
-    lookup id (p_props p) = Some w /\ lookup id (p_props p') = None /\ p_seq p' = p_seq p /\
+  Lemma complete_some region id (p p' : pipe W) w :
+    complete region id p = (p', Some w) ->
+    lookup (pkey region id) (p_props p) = Some w /\ lookup (pkey region id) (p_props p') = None /\ p_seq p' = p_seq p /\
     (forall id' w', lookup id' (p_props p') = Some w' -> lookup id' (p_props p) = Some w').
   Proof.
     unfold complete. destruct (id =? 0); [discriminate|].
-    destruct (lookup id (p_props p)) as [w0|] eqn:E; [|discriminate].
+    destruct (lookup (pkey region id) (p_props p)) as [w0|] eqn:E; [|discriminate].
     intros H. inversion H; subst; clear H. cbn [p_props p_seq].
     repeat split; auto using lookup_remove_same. intros id' w'. apply lookup_remove_sub.
   Qed.
 
-  Lemma complete_none id (p p' : pipe W) : complete id p = (p', None) -> p' = p.
+  Lemma complete_none region id (p p' : pipe W) : complete region id p = (p', None) -> p' = p.
   Proof.
     unfold complete. destruct (id =? 0); [congruence|].
-    destruct (lookup id (p_props p)); [discriminate|congruence].
+    destruct (lookup (pkey region id) (p_props p)); [discriminate|congruence].
   Qed.
 
   (** ** [apply_one] *)
-  Lemma apply_one_spec (e : entry) id c (s s' : store) ok :
-    apply_one applier e id c s = (s', ok) ->
-    let a := {| ap_index := e_index e; ap_term := e_term e; ap_reqid := id; ap_cmd := c;
+  Lemma apply_one_spec (e : entry) region id c (s s' : store) ok :
+    apply_one applier e region id c s = (s', ok) ->
+    let a := {| ap_index := e_index e; ap_term := e_term e; ap_region := region; ap_reqid := id; ap_cmd := c;
                 ap_res := match snd (applier (s_sm s) c) with Some x => ROk x | None => RErr end |} in
     s_sm s' = fst (applier (s_sm s) c) /\ s_log s' = a :: s_log s /\
     ok = (match snd (applier (s_sm s) c) with Some _ => true | None => false end) /\
     p_seq (s_pipe s') = p_seq (s_pipe s) /\ s_mark s' = s_mark s /\
     (forall id' w', lookup id' (p_props (s_pipe s')) = Some w' -> lookup id' (p_props (s_pipe s)) = Some w') /\
     (s_done s' = s_done s \/
-     exists w, s_done s' = {| k_w := w; k_by := a |} :: s_done s /\ lookup id (p_props (s_pipe s)) = Some w).
+     exists w, s_done s' = {| k_w := w; k_by := a |} :: s_done s /\ lookup (pkey region id) (p_props (s_pipe s)) = Some w).
   Proof.
     unfold apply_one. destruct (applier (s_sm s) c) as [m' r] eqn:Ea. cbn [fst snd].
-    destruct (complete id (s_pipe s)) as [p' ow] eqn:Ec. intros H. inversion H; subst; clear H.
+    destruct (complete region id (s_pipe s)) as [p' ow] eqn:Ec. intros H. inversion H; subst; clear H.
     cbn [s_sm s_log s_pipe s_mark s_done].
     destruct ow as [w|].
     - apply complete_some in Ec. destruct Ec as (Hl & _ & Hs & Hsub).
@@ -98,9 +98,9 @@ Section Store.
     - cbn. unfold applied_cmds. rewrite app_nil_r. auto.
     - inversion Hok as [|? ? He Hes]; subst. unfold pipe_ok in He.
       cbn [apply_entries cmds_of]. destruct (e_kind e); [|apply IH; assumption].
-      destruct (e_data e) as [| | | |id c]; try contradiction; [apply IH; assumption|].
-      destruct (apply_one applier e id c s) as [s1 ok] eqn:E1.
-      pose proof (apply_one_spec _ _ _ _ _ _ E1) as (Hsm & Hlog & Hokv & _ & Hmk & _ & _).
+      destruct (e_data e) as [| | | |region id c]; try contradiction; [apply IH; assumption|].
+      destruct (apply_one applier e region id c s) as [s1 ok] eqn:E1.
+      pose proof (apply_one_spec _ _ _ _ _ _ _ E1) as (Hsm & Hlog & Hokv & _ & Hmk & _ & _).
       assert (ok = true) as ->.
       { rewrite Hokv. specialize (Htotal (s_sm s) c). destruct (snd (applier (s_sm s) c)); congruence. }
       destruct (IH s1 Hes) as (Ho & Hc & Hm & Hk). repeat split; auto.
@@ -181,6 +181,16 @@ Proof.
   intros H. lia.
 Qed.
 
+Lemma mk_id_small t q : t < 2^32 -> q < 2^32 -> mk_id t q < 2^64.
+Proof.
+  unfold mk_id. intros H1 H2. change (2^64) with 18446744073709551616. change (2^32) with 4294967296 in *.
+  rewrite (N.mod_small (t * 4294967296)), (N.mod_small q) by lia. lia.
+Qed.
+
+(** the association-list key is injective on pairs of uint64 *)
+Lemma pkey_inj r1 i1 r2 i2 : i1 < 2^64 -> i2 < 2^64 -> pkey r1 i1 = pkey r2 i2 -> r1 = r2 /\ i1 = i2.
+Proof. unfold pkey. change (2^64) with 18446744073709551616. intros H1 H2 H. lia. Qed.
+
 (** * The cluster *)
 Section ClusterProofs.
   Context {cmd resp sm : Type}.
@@ -198,16 +208,16 @@ Section ClusterProofs.
   Proof. unfold CmdPipeline.grun. rewrite fold_left_app. reflexivity. Qed.
 
   (** ** What one call does to a store *)
-  Lemma propose_spec v w (st st' : store) out :
-    propose_command (next_id (W := N)) v 0 w st = (st', out) ->
+  Lemma propose_spec v region w (st st' : store) out :
+    propose_command (next_id (W := N)) v region 0 w st = (st', out) ->
     s_sm st' = s_sm st /\ s_log st' = s_log st /\ s_done st' = s_done st /\ s_mark st' = s_mark st /\
     ((s_pipe st' = s_pipe st /\ (forall id, out <> OWaiting id)) \/
      (exists term lead, v = VStatus true term lead /\
         p_seq (s_pipe st') = (p_seq (s_pipe st) + 1) mod 2^64 /\
         ((p_props (s_pipe st') = p_props (s_pipe st) /\ (forall id, out <> OWaiting id)) \/
          (exists id, out = OWaiting id /\ id = mk_id term (p_seq (s_pipe st')) /\
-                     lookup id (p_props (s_pipe st)) = None /\
-                     p_props (s_pipe st') = (id, w) :: p_props (s_pipe st))))).
+                     lookup (pkey region id) (p_props (s_pipe st)) = None /\
+                     p_props (s_pipe st') = (pkey region id, w) :: p_props (s_pipe st))))).
   Proof.
     unfold propose_command. destruct v as [|[|] term lead].
     - intros H; inversion H; subst. repeat split; auto. left. split; [reflexivity|discriminate].
@@ -216,7 +226,7 @@ Section ClusterProofs.
       destruct (id =? 0) eqn:E0.
       + intros H; inversion H; subst; cbn [s_sm s_log s_done s_mark s_pipe p_seq p_props].
         repeat split; auto. right. exists term, lead. repeat split; auto. left. split; [reflexivity|discriminate].
-      + destruct (lookup id (p_props (s_pipe st))) eqn:El.
+      + destruct (lookup (pkey region id) (p_props (s_pipe st))) eqn:El.
         * intros H; inversion H; subst; cbn [s_sm s_log s_done s_mark s_pipe p_seq p_props].
           repeat split; auto. right. exists term, lead. repeat split; auto. left. split; [reflexivity|discriminate].
         * intros H; inversion H; subst; cbn [s_sm s_log s_done s_mark s_pipe p_seq p_props].
@@ -240,25 +250,25 @@ Section ClusterProofs.
     p_seq (s_pipe s') = p_seq (s_pipe s) /\
     (forall id w, lookup id (p_props (s_pipe s')) = Some w -> lookup id (p_props (s_pipe s)) = Some w) /\
     (forall k, In k (s_done s') -> In k (s_done s) \/
-        (lookup (ap_reqid (k_by k)) (p_props (s_pipe s)) = Some (k_w k) /\
-         exists e, In e es /\ e_data e = PCmd (ap_reqid (k_by k)) (ap_cmd (k_by k)))).
+        (lookup (pkey (ap_region (k_by k)) (ap_reqid (k_by k))) (p_props (s_pipe s)) = Some (k_w k) /\
+         exists e, In e es /\ e_data e = PCmd (ap_region (k_by k)) (ap_reqid (k_by k)) (ap_cmd (k_by k)))).
   Proof.
     induction es as [|e es IH]; intros s s' out.
     - cbn. intros H; inversion H; subst. auto.
     - cbn [apply_entries]. destruct (e_kind e).
       2:{ intros H. destruct (IH _ _ _ H) as (A & B & C). repeat split; auto.
           intros k Hk. destruct (C k Hk) as [|(L & e0 & He0 & Hd)]; auto. right. split; auto. exists e0. split; [right|]; auto. }
-      destruct (e_data e) as [| | | |id c] eqn:Ed;
+      destruct (e_data e) as [| | | |region id c] eqn:Ed;
         try (intros H; inversion H; subst; auto; fail).
       + intros H. destruct (IH _ _ _ H) as (A & B & C). repeat split; auto.
         intros k Hk. destruct (C k Hk) as [|(L & e0 & He0 & Hd)]; auto. right. split; auto. exists e0. split; [right|]; auto.
-      + destruct (apply_one applier e id c s) as [s1 ok] eqn:E1.
-        pose proof (apply_one_spec applier _ _ _ _ _ _ E1) as (_ & _ & _ & Hseq & _ & Hsub & Hdone).
+      + destruct (apply_one applier e region id c s) as [s1 ok] eqn:E1.
+        pose proof (apply_one_spec applier _ _ _ _ _ _ _ E1) as (_ & _ & _ & Hseq & _ & Hsub & Hdone).
         assert (Hd1 : forall k, In k (s_done s1) -> In k (s_done s) \/
-                   (lookup (ap_reqid (k_by k)) (p_props (s_pipe s)) = Some (k_w k) /\
-                    e_data e = PCmd (ap_reqid (k_by k)) (ap_cmd (k_by k)))).
+                   (lookup (pkey (ap_region (k_by k)) (ap_reqid (k_by k))) (p_props (s_pipe s)) = Some (k_w k) /\
+                    e_data e = PCmd (ap_region (k_by k)) (ap_reqid (k_by k)) (ap_cmd (k_by k)))).
         { intros k Hk. destruct Hdone as [Hd|(w & Hd & Hl)]; rewrite Hd in Hk; [auto|].
-          destruct Hk as [<-|Hk]; [|auto]. right. cbn [k_by k_w ap_reqid ap_cmd]. auto. }
+          destruct Hk as [<-|Hk]; [|auto]. right. cbn [k_by k_w ap_region ap_reqid ap_cmd]. auto. }
         destruct ok.
         * intros H. destruct (IH _ _ _ H) as (A & B & C). repeat split; [congruence|auto|].
           intros k Hk. destruct (C k Hk) as [Hin|(L & e0 & He0 & Hd0)].
@@ -273,8 +283,8 @@ Section ClusterProofs.
     p_seq (s_pipe s') = p_seq (s_pipe s) /\
     (forall id w, lookup id (p_props (s_pipe s')) = Some w -> lookup id (p_props (s_pipe s)) = Some w) /\
     (forall k, In k (s_done s') -> In k (s_done s) \/
-        (lookup (ap_reqid (k_by k)) (p_props (s_pipe s)) = Some (k_w k) /\
-         exists e, In e es /\ e_data e = PCmd (ap_reqid (k_by k)) (ap_cmd (k_by k)))).
+        (lookup (pkey (ap_region (k_by k)) (ap_reqid (k_by k))) (p_props (s_pipe s)) = Some (k_w k) /\
+         exists e, In e es /\ e_data e = PCmd (ap_region (k_by k)) (ap_reqid (k_by k)) (ap_cmd (k_by k)))).
   Proof.
     unfold handle_committed. destruct (apply_entries applier (to_apply es) s) as [s1 o1] eqn:E1.
     intros H; inversion H; subst. cbn [s_pipe s_done].
@@ -287,32 +297,34 @@ Section ClusterProofs.
   Lemma calls_of_snoc (tr : list (gevent cmd)) e : calls_of tr <= calls_of (tr ++ [e]).
   Proof. unfold calls_of. rewrite filter_app, app_length. lia. Qed.
   Lemma calls_of_call (tr : list (gevent cmd)) e :
-    (match e with GPropose _ _ _ _ | GRead _ _ _ => true | _ => false end) = true ->
+    (match e with GPropose _ _ _ _ _ | GRead _ _ _ => true | _ => false end) = true ->
     calls_of (tr ++ [e]) = calls_of tr + 1.
   Proof. intros H. unfold calls_of. rewrite filter_app, app_length. cbn [filter]. rewrite H. cbn [length]. lia. Qed.
 
   Lemma props_step g e pr : In pr (g_props g) -> In pr (g_props (gstep g e)).
   Proof.
-    destruct e as [s|s w c v|s w v|s es|s id]; unfold CmdPipeline.gstep, get_store;
+    destruct e as [s|s region w c v|s w v|s es|s region id]; unfold CmdPipeline.gstep, get_store;
       destruct (g_stores g s) as [i0 st0]; cbn [g_props]; auto.
-    - destruct (propose_command _ v 0 w st0) as [st1 out]. cbn [g_props].
+    - destruct (propose_command _ v region 0 w st0) as [st1 out]. cbn [g_props].
       destruct out; auto. destruct v; auto. right; auto.
     - destruct (read_command_start _ v 0 st0). cbn [g_props]. auto.
     - destruct (handle_committed applier es st0). cbn [g_props]. auto.
   Qed.
 
   Record inv (tr : list (gevent cmd)) (g : gstate) : Prop := {
-    i_wait : forall s id w, lookup id (p_props (s_pipe (st_of g s))) = Some w ->
-               exists pr, In pr (g_props g) /\ pr_w pr = w /\ pr_id pr = id /\ pr_store pr = s;
+    i_wait : forall s key w, lookup key (p_props (s_pipe (st_of g s))) = Some w ->
+               exists pr, In pr (g_props g) /\ pr_w pr = w /\ pkey (pr_region pr) (pr_id pr) = key /\ pr_store pr = s;
     i_done : forall s k, In k (s_done (st_of g s)) ->
-               (exists pr, In pr (g_props g) /\ pr_w pr = k_w k /\ pr_store pr = s /\ pr_id pr = ap_reqid (k_by k)) /\
-               (exists s' es e, In (GDeliver s' es) tr /\ In e es /\ e_data e = PCmd (ap_reqid (k_by k)) (ap_cmd (k_by k)));
+               (exists pr, In pr (g_props g) /\ pr_w pr = k_w k /\ pr_store pr = s /\
+                           pkey (pr_region pr) (pr_id pr) = pkey (ap_region (k_by k)) (ap_reqid (k_by k))) /\
+               (exists s' es e, In (GDeliver s' es) tr /\ In e es /\
+                                e_data e = PCmd (ap_region (k_by k)) (ap_reqid (k_by k)) (ap_cmd (k_by k)));
     i_ids : forall pr, In pr (g_props g) ->
                exists q, pr_id pr = mk_id (pr_term pr) q /\ 0 < q < 2^32 /\
                          pr_inc pr <= inc_of g (pr_store pr) /\
                          (pr_inc pr = inc_of g (pr_store pr) -> q <= p_seq (s_pipe (st_of g (pr_store pr))));
     i_seq : forall s, p_seq (s_pipe (st_of g s)) <= calls_of tr;
-    i_nodup : NoDup (map pr_id (g_props g))
+    i_nodup : NoDup (map (fun pr => pkey (pr_region pr) (pr_id pr)) (g_props g))
   }.
 
   Lemma inv_init : inv [] (ginit init_sm).
@@ -337,7 +349,7 @@ Section ClusterProofs.
   Proof.
     intros Hcalls Hterms Hsafe [Hw Hd Hi Hs Hn].
     assert (Hle := calls_of_snoc tr e).
-    destruct e as [s|s w c v|s w v|s es|s id]; unfold CmdPipeline.gstep, get_store in *;
+    destruct e as [s|s region w c v|s w v|s es|s region id]; unfold CmdPipeline.gstep, get_store in *;
       destruct (g_stores g s) as [i0 st0] eqn:Eg.
     - (* GStart *)
       split; cbn [g_props].
@@ -354,9 +366,9 @@ Section ClusterProofs.
       + intros x. upd x s; cbn [fst snd s_pipe pipe_init p_seq]; [lia|]. specialize (Hs x). unfold st_of in Hs. lia.
       + exact Hn.
     - (* GPropose *)
-      destruct (propose_command _ v 0 w st0) as [st1 out] eqn:Ep.
-      pose proof (propose_spec _ _ _ _ _ Ep) as (_ & _ & Hdn & _ & Hcase).
-      assert (Hcall : calls_of (tr ++ [GPropose s w c v]) = calls_of tr + 1) by (apply calls_of_call; reflexivity).
+      destruct (propose_command _ v region 0 w st0) as [st1 out] eqn:Ep.
+      pose proof (propose_spec _ _ _ _ _ _ Ep) as (_ & _ & Hdn & _ & Hcase).
+      assert (Hcall : calls_of (tr ++ [GPropose s region w c v]) = calls_of tr + 1) by (apply calls_of_call; reflexivity).
       assert (Hs0 : p_seq (s_pipe st0) <= calls_of tr).
       { specialize (Hs s). unfold st_of in Hs. rewrite Eg in Hs. exact Hs. }
       assert (Hseq1 : p_seq (s_pipe st1) <= calls_of tr + 1 /\ p_seq (s_pipe st0) <= p_seq (s_pipe st1)).
@@ -373,9 +385,10 @@ Section ClusterProofs.
         - rewrite E, Eg in C, D. cbn [fst snd] in C, D. split; [exact C|]. intros X. specialize (D X). lia.
         - auto. }
       assert (Hd' : forall x k, In k (s_done (snd (gset s (i0, st1) (g_stores g) x))) ->
-                 (exists pr, In pr (g_props g) /\ pr_w pr = k_w k /\ pr_store pr = x /\ pr_id pr = ap_reqid (k_by k)) /\
-                 (exists s' es e, In (GDeliver s' es) (tr ++ [GPropose s w c v]) /\ In e es /\
-                                  e_data e = PCmd (ap_reqid (k_by k)) (ap_cmd (k_by k)))).
+                 (exists pr, In pr (g_props g) /\ pr_w pr = k_w k /\ pr_store pr = x /\
+                             pkey (pr_region pr) (pr_id pr) = pkey (ap_region (k_by k)) (ap_reqid (k_by k))) /\
+                 (exists s' es e, In (GDeliver s' es) (tr ++ [GPropose s region w c v]) /\ In e es /\
+                                  e_data e = PCmd (ap_region (k_by k)) (ap_reqid (k_by k)) (ap_cmd (k_by k)))).
       { intros x k. unfold gset. destruct (N.eqb_spec x s) as [E|E]; cbn [snd]; intros Hk.
         - subst x. rewrite Hdn in Hk. specialize (Hd s k). unfold st_of in Hd. rewrite Eg in Hd.
           destruct (Hd Hk) as (A & s' & es & e & B & C & D). split; auto. exists s', es, e. split; [apply in_or_app; left|]; auto.
@@ -385,7 +398,7 @@ Section ClusterProofs.
         cbn [g_props g_stores] in *. 
         assert (Eprops2 : match out, v with
                           | OWaiting id, VStatus _ term _ =>
-                              {| pr_store := s; pr_inc := i0; pr_w := w; pr_id := id; pr_cmd := c; pr_term := term |} :: g_props g
+                              {| pr_store := s; pr_inc := i0; pr_region := region; pr_w := w; pr_id := id; pr_cmd := c; pr_term := term |} :: g_props g
                           | _, _ => g_props g end = g_props g).
         { destruct out; auto; try (exfalso; eapply Hnw; reflexivity). }
         split; cbn [g_props g_stores]; rewrite ?Eprops2.
@@ -399,7 +412,7 @@ Section ClusterProofs.
       + (* leader, but not registered *)
         assert (Eprops2 : match out, VStatus true t l with
                           | OWaiting id, VStatus _ term _ =>
-                              {| pr_store := s; pr_inc := i0; pr_w := w; pr_id := id; pr_cmd := c; pr_term := term |} :: g_props g
+                              {| pr_store := s; pr_inc := i0; pr_region := region; pr_w := w; pr_id := id; pr_cmd := c; pr_term := term |} :: g_props g
                           | _, _ => g_props g end = g_props g).
         { destruct out; auto; try (exfalso; eapply Hnw; reflexivity). }
         split; cbn [g_props g_stores]; rewrite ?Eprops2.
@@ -411,14 +424,14 @@ Section ClusterProofs.
         * intros x. upd x s; cbn [snd]; [lia|]. specialize (Hs x). lia.
         * exact Hn.
       + (* registered *)
-        set (prn := {| pr_store := s; pr_inc := i0; pr_w := w; pr_id := id; pr_cmd := c; pr_term := t |}) in *.
+        set (prn := {| pr_store := s; pr_inc := i0; pr_region := region; pr_w := w; pr_id := id; pr_cmd := c; pr_term := t |}) in *.
         cbn [g_props g_stores] in Hterms, Hsafe.
         assert (Ht : 0 < t < 2^32) by (apply (Hterms prn); left; reflexivity).
         assert (Hq : 0 < p_seq (s_pipe st1) < 2^32).
         { rewrite Eseq in *. rewrite N.mod_small in *; change (2^64) with 18446744073709551616; change (2^32) with 4294967296 in *; lia. }
         split; cbn [g_props g_stores].
         * intros x id0 w0. upd x s; cbn [snd].
-          -- rewrite Eprops. cbn [lookup]. destruct (id =? id0) eqn:E.
+          -- rewrite Eprops. cbn [lookup]. destruct (pkey region id =? id0) eqn:E.
              ++ apply N.eqb_eq in E. subst id0. intros X; inversion X; subst. exists prn. split; [left|]; auto.
              ++ intros X. specialize (Hw s id0 w0). rewrite Eg in Hw. destruct (Hw X) as (pr & A & B). exists pr. split; [right|]; auto.
           -- intros X. destruct (Hw x id0 w0 X) as (pr & A & B). exists pr. split; [right|]; auto.
@@ -429,12 +442,14 @@ Section ClusterProofs.
              repeat split; auto; lia.
           -- apply Hi'. exact Hpr.
         * intros x. upd x s; cbn [snd]; [lia|]. specialize (Hs x). lia.
-        * cbn [map pr_id]. constructor; [|exact Hn].
+        * cbn [map]. constructor; [|exact Hn].
           intros Hin. apply in_map_iff in Hin. destruct Hin as (pr & Eid' & Hpr).
           destruct (Hi pr Hpr) as (q & A & B & C & D).
           assert (Htp : 0 < pr_term pr < 2^32) by (apply Hterms; right; exact Hpr).
-          unfold prn in Eid'. cbn [pr_id] in Eid'. rewrite A, Eid in Eid'. apply mk_id_inj in Eid'; try lia. destruct Eid' as [Et Eq].
-          destruct (Hsafe pr prn) as [Es Ei]; [right; exact Hpr|left; reflexivity|exact Et|].
+          unfold prn in Eid'. cbn [pr_id pr_region] in Eid'. rewrite A, Eid in Eid'.
+          apply pkey_inj in Eid'; [|apply mk_id_small; lia|apply mk_id_small; lia]. destruct Eid' as [Er Eid'].
+          apply mk_id_inj in Eid'; try lia. destruct Eid' as [Et Eq].
+          destruct (Hsafe pr prn) as [Es Ei]; [right; exact Hpr|left; reflexivity|exact Er|exact Et|].
           unfold prn in Es, Ei. cbn [pr_store pr_inc] in Es, Ei. unfold inc_of, st_of in C, D. rewrite Es, Eg in C, D. cbn [fst snd] in C, D.
           specialize (D Ei). rewrite Eseq in Eq. rewrite N.mod_small in Eq; [lia|].
           change (2^64) with 18446744073709551616. change (2^32) with 4294967296 in *. lia.
@@ -473,8 +488,8 @@ Section ClusterProofs.
           -- specialize (Hd s k). rewrite Eg in Hd.
              destruct (Hd Hold) as (A & s' & es' & e & B & C & D). split; auto. exists s', es', e. split; [apply in_or_app; left|]; auto.
           -- split.
-             ++ specialize (Hw s (ap_reqid (k_by k)) (k_w k)). rewrite Eg in Hw. destruct (Hw Hl) as (pr & A & B & C & D).
-                exists pr. auto.
+             ++ specialize (Hw s (pkey (ap_region (k_by k)) (ap_reqid (k_by k))) (k_w k)). rewrite Eg in Hw.
+                destruct (Hw Hl) as (pr & A & B & C & D). exists pr. auto.
              ++ exists s, es, e. split; [apply in_or_app; right; left; reflexivity|]. auto.
         * destruct (Hd x k Hk) as (A & s' & es' & e & B & C & D). split; auto. exists s', es', e. split; [apply in_or_app; left|]; auto.
       + intros pr Hpr. destruct (Hi pr Hpr) as (q & A & B & C & D). exists q. split; [|split]; auto.
@@ -538,26 +553,34 @@ Section ClusterProofs.
   Proof.
     intros Hc Ht Hs Hv. destruct (inv_run tr Hc Ht Hs) as [_ Hd _ _ Hn].
     intros s k Hk. unfold completions in Hk. destruct (Hd s k Hk) as ((pr & A & B & C & D) & s' & es & e & E1 & E2 & E3).
-    destruct (Hv s' es _ _ e E1 E2 E3) as (pr' & A' & B' & C').
-    assert (pr = pr') as <-. { eapply nodup_map_inj; eauto. congruence. }
-    exists pr. auto.
+    destruct (Hv s' es _ _ _ e E1 E2 E3) as (pr' & A' & R' & B' & C').
+    assert (pr = pr') as <-. { eapply (nodup_map_inj (fun pr => pkey (pr_region pr) (pr_id pr))); eauto. cbn beta. congruence. }
+    exists pr. repeat split; auto.
   Qed.
 
   (** The ids registered in a run are pairwise different. *)
   Theorem ids_unique_run tr :
     calls_small tr -> terms_ok (g_props (grun tr)) -> election_safe (g_props (grun tr)) ->
-    NoDup (map pr_id (g_props (grun tr))).
-  Proof. intros Hc Ht Hs. apply (inv_run tr Hc Ht Hs). Qed.
+    NoDup (map (fun pr => (pr_region pr, pr_id pr)) (g_props (grun tr))).
+  Proof.
+    intros Hc Ht Hs. destruct (inv_run tr Hc Ht Hs) as [_ _ Hi _ Hn].
+    assert (Hsmall : forall pr, In pr (g_props (grun tr)) -> pr_id pr < 2^64).
+    { intros pr Hpr. destruct (Hi pr Hpr) as (q & A & B & _). rewrite A. apply mk_id_small; [apply Ht; exact Hpr|lia]. }
+    revert Hn Hsmall. generalize (g_props (grun tr)). intros l. induction l as [|x l IH]; cbn [map]; intros Hn Hsm; constructor.
+    - inversion Hn as [|? ? Hx Hl]; subst. intros Hin. apply Hx. apply in_map_iff in Hin. destruct Hin as (y & E & Hy).
+      apply in_map_iff. exists y. split; [|exact Hy]. inversion E. reflexivity.
+    - inversion Hn; subst. apply IH; auto. intros pr Hpr. apply Hsm. right. exact Hpr.
+  Qed.
 
   (** C23, not leader: nothing but the answer. *)
-  Lemma not_leader_propose nid term lead given w (s : store) :
-    propose_command nid (VStatus false term lead) given w s = (s, ONotLeader lead).
+  Lemma not_leader_propose nid term lead region given w (s : store) :
+    propose_command nid (VStatus false term lead) region given w s = (s, ONotLeader lead).
   Proof. reflexivity. Qed.
   Lemma not_leader_read nid term lead given (s : store) :
     read_command_start nid (VStatus false term lead) given s = (s, ONotLeader lead).
   Proof. reflexivity. Qed.
-  Lemma not_leader_global g s w c term lead :
-    let g' := gstep g (GPropose s w c (VStatus false term lead)) in
+  Lemma not_leader_global g s region w c term lead :
+    let g' := gstep g (GPropose s region w c (VStatus false term lead)) in
     (forall x, snd (g_stores g' x) = snd (g_stores g x)) /\ g_props g' = g_props g /\
     g_outs g' = (w, ONotLeader lead) :: g_outs g.
   Proof.
@@ -644,10 +667,10 @@ End Reads.
 (** * Finding F20: before the repair the statement is false *)
 Section F20.
   Definition f20_trace : list (gevent rcmd) :=
-    [ GPropose 1 1 {| c_uid := 1; c_op := RPut 0 1 |} (VStatus true 2 1);   (* store 1, leader of term 2: first proposal *)
-      GPropose 2 2 {| c_uid := 2; c_op := RPut 0 2 |} (VStatus true 3 2);   (* store 2, leader of term 3: first proposal *)
-      GDeliver 2 [ {| e_index := 5; e_term := 3; e_kind := ENormal; e_data := PCmd 1 {| c_uid := 2; c_op := RPut 0 2 |} |} ];
-      GDeliver 1 [ {| e_index := 5; e_term := 3; e_kind := ENormal; e_data := PCmd 1 {| c_uid := 2; c_op := RPut 0 2 |} |} ] ].
+    [ GPropose 1 1 1 {| c_uid := 1; c_op := RPut 0 1 |} (VStatus true 2 1);   (* store 1, region 1, leader of term 2: first proposal *)
+      GPropose 2 1 2 {| c_uid := 2; c_op := RPut 0 2 |} (VStatus true 3 2);   (* store 2, region 1, leader of term 3: first proposal *)
+      GDeliver 2 [ {| e_index := 5; e_term := 3; e_kind := ENormal; e_data := PCmd 1 1 {| c_uid := 2; c_op := RPut 0 2 |} |} ];
+      GDeliver 1 [ {| e_index := 5; e_term := 3; e_kind := ENormal; e_data := PCmd 1 1 {| c_uid := 2; c_op := RPut 0 2 |} |} ] ].
 
   Definition run_v0 := CmdPipeline.grun rapply ([] : rsm) (next_id_v0 (W := N)).
   Definition run_v1 := CmdPipeline.grun rapply ([] : rsm) (next_id (W := N)).
@@ -665,14 +688,14 @@ Section F20.
     - vm_compute. reflexivity.
     - intros p Hp. vm_compute in Hp. destruct Hp as [<-|[<-|[]]]; vm_compute; split; reflexivity.
     - intros p1 p2 H1 H2. vm_compute in H1, H2.
-      destruct H1 as [<-|[<-|[]]], H2 as [<-|[<-|[]]]; cbn [pr_term pr_store pr_inc]; intros E; auto; discriminate.
-    - intros s es id c e Hin He Hd. cbn [f20_trace In] in Hin.
+      destruct H1 as [<-|[<-|[]]], H2 as [<-|[<-|[]]]; cbn [pr_term pr_store pr_inc pr_region]; intros R E; auto; discriminate.
+    - intros s es region id c e Hin He Hd. cbn [f20_trace In] in Hin.
       destruct Hin as [X|[X|[X|[X|[]]]]]; try discriminate; inversion X; subst; clear X;
         destruct He as [<-|[]]; cbn [e_data] in Hd; inversion Hd; subst;
-        (eexists; split; [vm_compute; left; reflexivity|split; reflexivity]).
-    - intros H. specialize (H 1 {| k_w := 1; k_by := {| ap_index := 5; ap_term := 3; ap_reqid := 1;
+        (eexists; split; [vm_compute; left; reflexivity|repeat split; reflexivity]).
+    - intros H. specialize (H 1 {| k_w := 1; k_by := {| ap_index := 5; ap_term := 3; ap_region := 1; ap_reqid := 1;
                                    ap_cmd := {| c_uid := 2; c_op := RPut 0 2 |}; ap_res := ROk (2, None) |} |}).
-      destruct H as (pr & Hin & Hw & _ & _ & Hc); [vm_compute; left; reflexivity|].
+      destruct H as (pr & Hin & Hw & _ & _ & _ & Hc); [vm_compute; left; reflexivity|].
       vm_compute in Hin. cbn [k_w k_by ap_cmd] in Hw, Hc.
       destruct Hin as [<-|[<-|[]]]; cbn [pr_w pr_cmd] in Hw, Hc; discriminate.
   Qed.
@@ -681,10 +704,10 @@ Section F20.
       (non-trivial) scenario, where now the ids differ and the entry applied on
       store 1 carries store 2's id. *)
   Definition f20_trace_fixed : list (gevent rcmd) :=
-    [ GPropose 1 1 {| c_uid := 1; c_op := RPut 0 1 |} (VStatus true 2 1);
-      GPropose 2 2 {| c_uid := 2; c_op := RPut 0 2 |} (VStatus true 3 2);
-      GDeliver 2 [ {| e_index := 5; e_term := 3; e_kind := ENormal; e_data := PCmd (mk_id 3 1) {| c_uid := 2; c_op := RPut 0 2 |} |} ];
-      GDeliver 1 [ {| e_index := 5; e_term := 3; e_kind := ENormal; e_data := PCmd (mk_id 3 1) {| c_uid := 2; c_op := RPut 0 2 |} |} ] ].
+    [ GPropose 1 1 1 {| c_uid := 1; c_op := RPut 0 1 |} (VStatus true 2 1);
+      GPropose 2 1 2 {| c_uid := 2; c_op := RPut 0 2 |} (VStatus true 3 2);
+      GDeliver 2 [ {| e_index := 5; e_term := 3; e_kind := ENormal; e_data := PCmd 1 (mk_id 3 1) {| c_uid := 2; c_op := RPut 0 2 |} |} ];
+      GDeliver 1 [ {| e_index := 5; e_term := 3; e_kind := ENormal; e_data := PCmd 1 (mk_id 3 1) {| c_uid := 2; c_op := RPut 0 2 |} |} ] ].
 
   Lemma f20_fixed_hyps :
     calls_small f20_trace_fixed /\ terms_ok (g_props (run_v1 f20_trace_fixed)) /\
@@ -696,11 +719,64 @@ Section F20.
     - vm_compute. reflexivity.
     - intros p Hp. vm_compute in Hp. destruct Hp as [<-|[<-|[]]]; vm_compute; split; reflexivity.
     - intros p1 p2 H1 H2. vm_compute in H1, H2.
-      destruct H1 as [<-|[<-|[]]], H2 as [<-|[<-|[]]]; cbn [pr_term pr_store pr_inc]; intros E; auto; discriminate.
-    - intros s es id c e Hin He Hd. cbn [f20_trace_fixed In] in Hin.
+      destruct H1 as [<-|[<-|[]]], H2 as [<-|[<-|[]]]; cbn [pr_term pr_store pr_inc pr_region]; intros R E; auto; discriminate.
+    - intros s es region id c e Hin He Hd. cbn [f20_trace_fixed In] in Hin.
       destruct Hin as [X|[X|[X|[X|[]]]]]; try discriminate; inversion X; subst; clear X;
         destruct He as [<-|[]]; cbn [e_data] in Hd; inversion Hd; subst;
-        (eexists; split; [vm_compute; left; reflexivity|split; reflexivity]).
+        (eexists; split; [vm_compute; left; reflexivity|repeat split; reflexivity]).
+    - vm_compute. discriminate.
+    - vm_compute. reflexivity.
+  Qed.
+
+  (** ** The same failure across regions (code of commit b93c45d: waiters keyed
+      by the request id alone).  Raft terms are per region: store 1 leading
+      region 1 and store 2 leading region 2 in the same term number both hand
+      out [mk_id term 1]; store 1, a follower of region 2, applies store 2's
+      entry and the waiter of its own region-1 proposal receives the result. *)
+  Lemma region_collision_refuted :
+    exists (p1 p2 : pipe N) (w : N),
+      register_v1 1 (mk_id 2 1) w pipe_init = (RegOk, p1) /\
+      complete_v1 2 (mk_id 2 1) p1 = (p2, Some w).
+  Proof. eexists _, _, 7. split; vm_compute; reflexivity. Qed.
+
+  (** With the region in the key an entry of another region completes nobody. *)
+  Lemma complete_other_region r1 r2 id (w : N) (p p1 : pipe N) :
+    r1 <> r2 -> id < 2^64 -> register r1 id w p = (RegOk, p1) ->
+    lookup (pkey r2 id) (p_props p) = None -> complete r2 id p1 = (p1, None).
+  Proof.
+    unfold register, complete. intros Hr Hid. destruct (id =? 0) eqn:E0; [discriminate|].
+    destruct (lookup (pkey r1 id) (p_props p)); [discriminate|]. intros H; inversion H; subst; clear H.
+    intros Hn. cbn [p_props lookup]. destruct (pkey r1 id =? pkey r2 id) eqn:E.
+    - apply N.eqb_eq in E. apply pkey_inj in E; auto. tauto.
+    - rewrite Hn. reflexivity.
+  Qed.
+
+  (** The two-region scenario on the repaired model: all premises hold (the
+      terms coincide, but in different regions), the ids coincide, and store 1's
+      caller is not answered by region 2's entry. *)
+  Definition two_region_trace : list (gevent rcmd) :=
+    [ GPropose 1 1 1 {| c_uid := 1; c_op := RPut 0 1 |} (VStatus true 2 1);   (* store 1 leads region 1 in term 2 *)
+      GPropose 2 2 2 {| c_uid := 2; c_op := RPut 2 2 |} (VStatus true 2 2);   (* store 2 leads region 2 in term 2 *)
+      GDeliver 2 [ {| e_index := 5; e_term := 2; e_kind := ENormal; e_data := PCmd 2 (mk_id 2 1) {| c_uid := 2; c_op := RPut 2 2 |} |} ];
+      GDeliver 1 [ {| e_index := 5; e_term := 2; e_kind := ENormal; e_data := PCmd 2 (mk_id 2 1) {| c_uid := 2; c_op := RPut 2 2 |} |} ] ].
+
+  Lemma two_region_hyps :
+    calls_small two_region_trace /\ terms_ok (g_props (run_v1 two_region_trace)) /\
+    election_safe (g_props (run_v1 two_region_trace)) /\
+    entries_valid rapply ([] : rsm) (next_id (W := N)) two_region_trace /\
+    map pr_id (g_props (run_v1 two_region_trace)) = [mk_id 2 1; mk_id 2 1] /\
+    completions (run_v1 two_region_trace) 2 <> [] /\ completions (run_v1 two_region_trace) 1 = [].
+  Proof.
+    split; [|split; [|split; [|split; [|split; [|split]]]]].
+    - vm_compute. reflexivity.
+    - intros p Hp. vm_compute in Hp. destruct Hp as [<-|[<-|[]]]; vm_compute; split; reflexivity.
+    - intros p1 p2 H1 H2. vm_compute in H1, H2.
+      destruct H1 as [<-|[<-|[]]], H2 as [<-|[<-|[]]]; cbn [pr_term pr_store pr_inc pr_region]; intros R E; auto; discriminate.
+    - intros s es region id c e Hin He Hd. cbn [two_region_trace In] in Hin.
+      destruct Hin as [X|[X|[X|[X|[]]]]]; try discriminate; inversion X; subst; clear X;
+        destruct He as [<-|[]]; cbn [e_data] in Hd; inversion Hd; subst;
+        (eexists; split; [vm_compute; left; reflexivity|repeat split; reflexivity]).
+    - vm_compute. reflexivity.
     - vm_compute. discriminate.
     - vm_compute. reflexivity.
   Qed.
@@ -710,17 +786,18 @@ End F20.
 Lemma agree_b_spec evs : agree_b evs = true <-> agree evs.
 Proof.
   unfold agree_b, agree. rewrite forallb_forall. split.
-  - intros H s i id c s' id' c' H1 H2. specialize (H _ H1). rewrite forallb_forall in H. specialize (H _ H2).
-    cbn in H. rewrite N.eqb_refl in H. cbn in H. apply andb_true_iff in H. destruct H as [Hid Hc].
+  - intros H s g i id c s' id' c' H1 H2. specialize (H _ H1). rewrite forallb_forall in H. specialize (H _ H2).
+    cbn in H. rewrite !N.eqb_refl in H. cbn in H. apply andb_true_iff in H. destruct H as [Hid Hc].
     apply N.eqb_eq in Hid. auto.
-  - intros H [[[s i] id] c] H1. rewrite forallb_forall. intros [[[s' i'] id'] c'] H2.
-    destruct (i =? i') eqn:E; [|reflexivity]. apply N.eqb_eq in E. subst i'. cbn [negb orb].
-    destruct (H _ _ _ _ _ _ _ H1 H2) as [-> Hc]. rewrite N.eqb_refl, Hc. reflexivity.
+  - intros H [[[[s g] i] id] c] H1. rewrite forallb_forall. intros [[[[s' g'] i'] id'] c'] H2.
+    destruct (g =? g') eqn:Eg; [|reflexivity]. destruct (i =? i') eqn:E; [|reflexivity].
+    apply N.eqb_eq in E, Eg. subst i' g'. cbn [negb orb andb].
+    destruct (H _ _ _ _ _ _ _ _ H1 H2) as [-> Hc]. rewrite N.eqb_refl, Hc. reflexivity.
 Qed.
 
 (** * The premises of [same_sequence_committed] / [read_linearizable] are satisfiable *)
 Definition ex_ap (m : list N) (c : N) : list N * option (list N) := (c :: m, Some m).
-Definition ex_e (i c : N) : entry N := {| e_index := i; e_term := 1; e_kind := ENormal; e_data := PCmd i c |}.
+Definition ex_e (i c : N) : entry N := {| e_index := i; e_term := 1; e_kind := ENormal; e_data := PCmd 1 i c |}.
 Definition ex_committed := [ex_e 1 10; ex_e 2 20; ex_e 3 30].
 Definition ex_bs := [[ex_e 1 10]; [ex_e 2 20]].
 Example read_linearizable_premises :
